@@ -64,7 +64,7 @@ func NewStringFuncSymbol(store Store, name string, f func(id string) *string) En
 		impl: func(tx *bbolt.Tx, rowId []byte) (FieldType, []byte) {
 			result := f(string(rowId))
 			if result == nil {
-				return TypeString, nil
+				return TypeNil, nil
 			}
 			return TypeString, []byte(*result)
 		},
